@@ -158,6 +158,10 @@ func (ex *Exec) joinThreads() {
 		return
 	}
 	tt := ex.tt
+	// the native runtime needs the schedule before it runs the operations: reserve its
+	// place on the tape ahead of anything the thread bodies draw
+	schedIdx := len(ex.tape)
+	ex.tape = append(ex.tape, TapeEntry{Name: "schedule", Kind: "sched"})
 	// 1. run every thread in isolation
 	for ti, tr := range tc.threads {
 		tc.cur = ti
@@ -261,11 +265,18 @@ func (ex *Exec) joinThreads() {
 	sched := TapeEntry{Name: "schedule", Kind: "sched"}
 	for ti, tr := range tc.threads {
 		for oi := range tr.ops {
+			// an operation is placed at its first real mutex acquisition if it has one
+			// (exact when the operation is one critical section), else at its first event
 			var first *Term
 			for _, e := range tc.events {
-				if e.thread == ti && e.op == oi {
+				if e.thread == ti && e.op == oi && e.kind == evLock && e.key.cell >= 0 {
 					first = e.clock
 					break
+				}
+			}
+			for _, e := range tc.events {
+				if first == nil && e.thread == ti && e.op == oi {
+					first = e.clock
 				}
 			}
 			if first == nil {
@@ -274,7 +285,7 @@ func (ex *Exec) joinThreads() {
 			sched.Terms = append(sched.Terms, tt.Const(W, uint64(ti)), first)
 		}
 	}
-	ex.tape = append(ex.tape, sched)
+	ex.tape[schedIdx] = sched
 	// 5. data-race freedom by locksets
 	for i, a := range tc.events {
 		if a.kind != evRead && a.kind != evWrite {
